@@ -1,5 +1,5 @@
-(* C20 model, part 2: string functions of src/sql/functions/string.rs on UTF-8 byte strings.
-   Transcription (definitions only).  A Rust `&str` is a byte list that decodes ([Utf8.decode_utf8]);
+(* C20 model, part 2: string functions of src/sql/functions/string.rs on UTF-8 byte strings
+   (repaired tree: fix commits 6ca9f39, c7e0f53, 9fda373).  Transcription (definitions only).  A Rust `&str` is a byte list that decodes ([Utf8.decode_utf8]);
    `text.chars()` is the decoding, `.collect::<String>()` / `push(char)` the encoding,
    `text.len()` and `haystack.find(needle)` work on BYTES - exactly as written in the code.
    Arguments are Text / Int / NULL values ([Arith.val]); an Int where the code expects text
@@ -15,9 +15,6 @@ Definition zlen {A} (l : list A) : Z := Z.of_nat (length l).
 (* iterator .take(n) / .skip(n) for n >= 0 (n may be as large as usize::MAX: never converted to nat) *)
 Definition take_z {A} (n : Z) (l : list A) : list A := firstn (Z.to_nat (Z.min n (zlen l))) l.
 Definition skip_z {A} (n : Z) (l : list A) : list A := skipn (Z.to_nat (Z.min n (zlen l))) l.
-
-(* `n as usize` *)
-Definition as_usize (n : Z) : Z := if n <? 0 then n + 2 ^ 64 else n.
 
 (* sizes up to which REPEAT / SPACE / LPAD / RPAD results are modelled (beyond: huge allocations, not exercised) *)
 Definition max_model : Z := 65536.
@@ -94,9 +91,15 @@ Definition arg_int (args : list val) (i : nat) (k : Z -> out) : out :=
   | Some VNull => ONone
   | Some _ => OUnmod
   end.
-(* args.get(i).and_then(get_int) *)
-Definition opt_int (args : list val) (i : nat) : option Z :=
-  match nth_error args i with Some (VInt n) => Some n | _ => None end.
+(* match args.get(i) { Some(v) => Some(get_int(v)?), None => None }: an absent optional argument is None,
+   a NULL one makes the function return None *)
+Definition opt_arg_int (args : list val) (i : nat) (k : option Z -> out) : out :=
+  match nth_error args i with
+  | None => k None
+  | Some (VInt n) => k (Some n)
+  | Some VNull => ONone
+  | Some _ => OUnmod
+  end.
 
 Definition with_chars (s : list Z) (k : list Z -> out) : out :=
   match decode_utf8 s with Some cs => k cs | None => OUnmod end.
@@ -115,14 +118,14 @@ Definition pad_common (left : bool) (args : list val) : out :=
   arg_text args 0 (fun s =>
   arg_int args 1 (fun n =>
   arg_text args 2 (fun pad =>
-  let tl := as_usize n in
+  if n <? 0 then OVal VNull else                                 (* if target_len < 0 { return Some(Value::Null) } *)
+  let tl := n in
   with_chars s (fun cs =>
   let cc := zlen cs in
   if tl <=? cc then text (take_z tl cs)
   else if blen pad =? 0 then OVal (VText s)
   else with_chars pad (fun pcs =>
-       if left && (2 ^ 63 <=? tl) then OPanic                    (* String::with_capacity(target_len): capacity overflow *)
-       else if tl <=? max_model then
+       if tl <=? max_model then
          text (if left then cycle pcs (tl - cc) ++ cs else cs ++ cycle pcs (tl - cc))
        else OUnmod))))).
 
@@ -138,8 +141,7 @@ Definition eval_sfn (f : sfn) (args : list val) : out :=
   | SRight => arg_text args 0 (fun s => arg_int args 1 (fun n =>
                if n <? 0 then empty_text
                else with_chars s (fun cs => text (skip_z (zlen cs - Z.min n (zlen cs)) cs))))
-  | SSubstr => arg_text args 0 (fun s => arg_int args 1 (fun pos =>
-               let len := opt_int args 2 in
+  | SSubstr => arg_text args 0 (fun s => arg_int args 1 (fun pos => opt_arg_int args 2 (fun len =>
                with_chars s (fun cs =>
                let go := fun start =>
                  match len with
@@ -147,17 +149,22 @@ Definition eval_sfn (f : sfn) (args : list val) : out :=
                  | None => text (skip_z start cs)
                  end in
                if 0 <? pos then go (pos - 1)
-               else if pos <? 0 then
-                 (if pos =? i64_min then OPanic                                      (* (-pos) as usize *)
-                  else go (Z.max 0 (zlen cs - (- pos))))
-               else empty_text)))
+               else if pos <? 0 then go (Z.max 0 (zlen cs - (- pos)))        (* saturating_sub(pos.unsigned_abs()) *)
+               else empty_text))))
   | SReverse => arg_text args 0 (fun s => with_chars s (fun cs => text (rev cs)))
   | SLpad => pad_common true args
   | SRpad => pad_common false args
   | SInstr => arg_text args 0 (fun hay => arg_text args 1 (fun needle =>
-               OVal (VInt (match find_from needle hay 0 with Some p => p + 1 | None => 0 end))))
-  | SLocate => arg_text args 0 (fun needle => arg_text args 1 (fun hay =>
-               let start := match opt_int args 2 with Some k => k | None => 1 end in
+               match find_from needle hay 0 with
+               | None => OVal (VInt 0)
+               | Some p =>
+                   match decode_utf8 (firstn (Z.to_nat p) hay) with            (* haystack[..p].chars().count() + 1 *)
+                   | Some pre => OVal (VInt (zlen pre + 1))
+                   | None => OPanic                                           (* slice end inside a character *)
+                   end
+               end))
+  | SLocate => arg_text args 0 (fun needle => arg_text args 1 (fun hay => opt_arg_int args 2 (fun st =>
+               let start := match st with Some k => k | None => 1 end in
                if start <? 1 then OVal (VInt 0)
                else with_chars hay (fun cs =>
                  let ss := start - 1 in
@@ -171,7 +178,7 @@ Definition eval_sfn (f : sfn) (args : list val) : out :=
                        | Some pre => OVal (VInt (zlen pre + ss + 1))
                        | None => OPanic                                        (* slice end inside a character *)
                        end
-                   end)))
+                   end))))
   | SRepeat => arg_text args 0 (fun s => arg_int args 1 (fun n =>
                if n <=? 0 then empty_text
                else if blen s =? 0 then empty_text
@@ -311,25 +318,5 @@ Definition str_obs_ok (x : sres) (o : out) : bool :=
       end
   end.
 
-(* finding classes of string-function applications
-   4 : INSTR whose first match is preceded by a multi-byte character (byte offset returned instead of character position)
-   5 : SUBSTR with position i64::MIN (`-pos` overflows)
-   6 : LPAD with a negative length, non-empty pad (`len as usize` is huge: String::with_capacity panics)
-   7 : a NULL optional argument (SUBSTR length, LOCATE start) is treated as absent instead of giving NULL *)
-Definition sfn_class (f : sfn) (args : list val) : Z :=
-  match f, args with
-  | SInstr, [VText h; VText n] =>
-      match decode_utf8 h, decode_utf8 n with
-      | Some hc, Some nc =>
-          match find_pre nc hc with
-          | Some pre => if is_ascii pre then 0 else 4
-          | None => 0
-          end
-      | _, _ => 0
-      end
-  | SSubstr, VText _ :: VInt pos :: rest =>
-      if pos =? i64_min then 5 else match rest with [VNull] => 7 | _ => 0 end
-  | SLocate, [VText _; VText _; VNull] => 7
-  | SLpad, [VText _; VInt n; VText p] => if (n <? 0) && negb (blen p =? 0) then 6 else 0
-  | _, _ => 0
-  end.
+(* no finding class is left for the string functions: the defects recorded as F-C20-4 .. F-C20-7
+   (INSTR byte offset, SUBSTR(i64::MIN) panic, LPAD / RPAD negative length, NULL optional argument) are repaired *)
